@@ -465,6 +465,58 @@ fn run(op: &Value) -> Value {
                 json!({"default": if d.is_ok() { "ok" } else { "err" }, "exhaustive": if e.is_ok() { "ok" } else { "err" }, "reserialized": reser})
             }
         }
+        "error_partition" | "error_encode" => {
+            use conjure_error::{Error, ErrorCode, ErrorKind, ErrorType};
+            use serde::ser::SerializeStruct;
+            struct DynErr { names: Vec<&'static str>, present: Vec<bool>, safe: &'static [&'static str] }
+            impl ErrorType for DynErr {
+                fn code(&self) -> ErrorCode { ErrorCode::Conflict }
+                fn name(&self) -> &str { "Test:DynErr" }
+                fn instance_id(&self) -> Option<conjure_object::Uuid> { None }
+                fn safe_args(&self) -> &'static [&'static str] { self.safe }
+            }
+            impl serde::Serialize for DynErr {
+                fn serialize<S: serde::Serializer>(&self, s: S) -> Result<S::Ok, S::Error> {
+                    let mut st = s.serialize_struct("DynErr", self.names.len())?;
+                    for (n, p) in self.names.iter().zip(&self.present) {
+                        if *p { st.serialize_field(n, "v")?; } else { st.serialize_field(n, &vec![1, 2])?; }
+                    }
+                    st.end()
+                }
+            }
+            fn leak(s: &str) -> &'static str { Box::leak(s.to_string().into_boxed_str()) }
+            if name == "error_partition" {
+                let names: Vec<&'static str> = op["names"].as_array().unwrap().iter().map(|v| leak(v.as_str().unwrap())).collect();
+                let present: Vec<bool> = names.iter().map(|n| op["present"].as_array().unwrap().iter().any(|p| p.as_str() == Some(n))).collect();
+                let safe: Vec<&'static str> = op["safe"].as_array().unwrap().iter().map(|v| leak(v.as_str().unwrap())).collect();
+                let safe: &'static [&'static str] = Box::leak(safe.into_boxed_slice());
+                let e = Error::service_safe("cause", DynErr { names, present, safe });
+                let mut s: Vec<String> = e.safe_params().iter().map(|(k, _)| k.to_string()).collect();
+                let mut u: Vec<String> = e.unsafe_params().iter().map(|(k, _)| k.to_string()).collect();
+                s.sort(); u.sort();
+                let enc: Vec<String> = match e.kind() { ErrorKind::Service(se) => se.parameters().keys().cloned().collect(), _ => vec![] };
+                json!({"safe": s, "unsafe": u, "encoded": enc})
+            } else {
+                #[derive(serde::Serialize)]
+                struct E { s: String, b: bool, i: i32, l: Vec<i32>, o: Option<i32>, d: f64 }
+                impl ErrorType for E {
+                    fn code(&self) -> ErrorCode { ErrorCode::InvalidArgument }
+                    fn name(&self) -> &str { "Ns:E" }
+                    fn instance_id(&self) -> Option<conjure_object::Uuid> { None }
+                    fn safe_args(&self) -> &'static [&'static str] { &["b", "l"] }
+                }
+                let se = conjure_error::encode(&E { s: "x".into(), b: true, i: -5, l: vec![1], o: None, d: 1.5 });
+                let params: Vec<(String, String)> = se.parameters().iter().map(|(k, v)| (k.clone(), v.clone())).collect();
+                let want = vec![("b".to_string(), "true".to_string()), ("d".to_string(), "1.5".to_string()), ("i".to_string(), "-5".to_string()), ("s".to_string(), "x".to_string())];
+                let js = conjure_serde::json::to_string(&se).unwrap();
+                let back: conjure_error::SerializableError = conjure_serde::json::client_from_str(&js).unwrap();
+                let e = Error::service_safe("c", E { s: "x".into(), b: true, i: -5, l: vec![1], o: None, d: 1.5 });
+                let s: Vec<String> = e.safe_params().iter().map(|(k, _)| k.to_string()).collect();
+                let pe = Error::propagated_service_safe("c", se.clone());
+                json!({"ok": params == want && se.error_name() == "Ns:E" && format!("{:?}", se.error_code()) == "InvalidArgument" && back == se && s == vec!["b".to_string()] && pe.safe_params().iter().count() == 0 && pe.unsafe_params().iter().count() == 4,
+                       "params": format!("{:?}", params), "safe": s})
+            }
+        }
         _ => json!({"error": format!("unknown op {}", name)}),
     }
 }
